@@ -85,6 +85,8 @@ def gen_leaf(rng, nvars, falsy, vocab):
     if k == 'contains':
         return (rng.choice(['contains', 'in']), ('attr', rng.randrange(nvars), 'tags'),
                 ('lit', rng.choice([0, 1, 2] if falsy else [1, 2, 3])))
+    if k == 'pred':
+        return (rng.choice(['pred_fn', 'pred_cls']), rng.randrange(nvars), rng.choice([0, 1, 2]))
     raise ValueError(k)
 
 
@@ -104,7 +106,7 @@ def gen_cond(rng, nvars, depth, falsy=False, vocab=('cmp', 'name', 'truth', 'cal
 
 
 def vars_of(c):
-    if c[0] in ('attr', 'index', 'call'):
+    if c[0] in ('attr', 'index', 'call', 'pred_fn', 'pred_cls'):
         return {c[1]}
     if c[0] == 'var':
         return {c[1]}
@@ -138,6 +140,8 @@ def holds(c, env):
         return bool(OPS[c[1]](val(c[2], env), val(c[3], env)))
     if k == 'truth':
         return bool(val(c[1], env))
+    if k in ('pred_fn', 'pred_cls'):
+        return env[c[1]].size > c[2]
     if k in ('contains', 'in'):
         return val(c[2], env) in val(c[1], env)
     if k == 'and':
@@ -175,6 +179,10 @@ def build(c, xs):
         return OPS[op](a, b)
     if k == 'truth':
         return build_operand(c[1], xs)
+    if k == 'pred_fn':
+        return is_big_fn(xs[c[1]], limit=c[2])
+    if k == 'pred_cls':
+        return IsBig(xs[c[1]], limit=c[2])
     if k == 'contains':
         return contains(build_operand(c[1], xs), build_operand(c[2], xs))
     if k == 'in':
@@ -229,4 +237,92 @@ def run_flatten(dom, with_cond, select_parent, cond=None):
     rows = list(q.evaluate())
     got = sorted((id(r[x]) if select_parent else 0, r[t]) for r in rows)
     want = sorted((id(o) if select_parent else 0, e) for o in dom if (not with_cond or holds(cond, {0: o})) for e in o.tags)
+    return got, want, q
+
+
+# ------------------------------------------------------------------ the / an consistency (C06), modes (C08, C09), sub-queries (C15)
+from entity_query_language import predicate, Predicate, HasType, MultipleSolutionFound, NoSolutionFound, rule_mode  # noqa: E402
+from entity_query_language.symbolic import _symbolic_mode, SymbolicExpression  # noqa: E402
+
+
+@symbol
+@dataclass
+class EqItem:
+    """instances with equal fields compare equal (dataclass eq) but are distinct objects"""
+    name: str
+    size: int
+
+
+@predicate
+def is_big_fn(o, limit=1):
+    return o.size > limit
+
+
+@dataclass(eq=False)
+class IsBig(Predicate):
+    obj: object
+    limit: int = 1
+
+    def __call__(self):
+        return self.obj.size > self.limit
+
+
+def outcome_of_the(dom, cond, cls=Item, inside=None):
+    """('value', id) | ('none',) | ('multiple',) | ('error', repr)"""
+    with symbolic_mode():
+        x = let(type_=cls, domain=dom)
+        q = the(entity(x, build(cond, [x])))
+
+    def ev():
+        try:
+            return ('value', id(q.evaluate()))
+        except MultipleSolutionFound:
+            return ('multiple',)
+        except NoSolutionFound:
+            return ('none',)
+        except Exception as e:  # noqa
+            return ('error', repr(e))
+    if inside == 'query':
+        with symbolic_mode():
+            r = [ev(), ev()]
+    elif inside == 'rule':
+        with rule_mode():
+            r = [ev(), ev()]
+    else:
+        r = [ev(), ev()]
+    return r
+
+
+def mode_state():
+    return (str(_symbolic_mode.get()), len(SymbolicExpression._symbolic_expression_stack_))
+
+
+def run_select_exprs(doms, cond, sel_spec):
+    """set_of over variables and attribute expressions of them; returns multisets of value tuples"""
+    with symbolic_mode():
+        xs = [let(type_=Item, domain=d) for d in doms]
+        sel = [xs[i] if a is None else getattr(xs[i], a) for i, a in sel_spec]
+        props = [build(cond, xs)] if cond is not None else []
+        q = an(set_of(sel, *props))
+    rows = list(q.evaluate())
+
+    def keyof(v):
+        return id(v) if isinstance(v, Item) else ('v', repr(v))
+    got = sorted(tuple(keyof(r[s]) for s in sel) for r in rows)
+    want = []
+    for combo in itertools.product(*doms):
+        env = dict(enumerate(combo))
+        if cond is None or holds(cond, env):
+            want.append(tuple(keyof(env[i] if a is None else getattr(env[i], a)) for i, a in sel_spec))
+    # variables that are not selected do not multiply rows only if ... they do (SQL semantics): one row per assignment
+    return got, sorted(want), q
+
+
+def run_select_attr(dom, attr, cond):
+    with symbolic_mode():
+        x = let(type_=Item, domain=dom)
+        props = [build(cond, [x])] if cond is not None else []
+        q = an(entity(getattr(x, attr), *props))
+    got = list(q.evaluate())
+    want = [getattr(o, attr) for o in dom if cond is None or holds(cond, {0: o})]
     return got, want, q
